@@ -335,6 +335,15 @@ example :
                 { taskOf [103, 58, 116] with subtaskOf := some [103] }] := by
   decide
 
+/-- task names are opaque: a sub-task named `*.py` is a plain `task_dep` of its group, in yield order (`*.py`, `b`);
+    wild-card handling applies only to declared `task_dep` values -/
+example :
+    load [] [⟨[103], 1, .gen [.leaf (.dict (actionsOnly ++ [(.name, .str [42, 46, 112, 121])]) [] []),
+                              .leaf (.dict (actionsOnly ++ [(.name, .str [98])]) [] [])]⟩]
+      = .tasks [{ taskOf [103] with taskDep := [[103, 58, 42, 46, 112, 121], [103, 58, 98]], hasSubtask := true },
+                { taskOf [103, 58, 42, 46, 112, 121] with subtaskOf := some [103] },
+                { taskOf [103, 58, 98] with subtaskOf := some [103] }] := by decide
+
 /-- each rejection class is reachable -/
 example : load [] [⟨[102], 1, .dict (actionsOnly ++ [(.unknown, .int 1)])⟩] = .invalidTask ∧
     load [] [⟨[102], 1, .dict (actionsOnly ++ [(.task_dep, .list [[122]])])⟩] = .invalidTask ∧
